@@ -8,7 +8,7 @@
 From Coq Require Import ZArith List Bool.
 From Coq.Strings Require Import Byte String.
 From EsVerif.Common Require Import Base Bytes.
-From EsVerif.C01 Require Import Framing FramingProofs Model Spec Layout LayoutProofs Entry Gen GenProofs Proofs Witness.
+From EsVerif.C01 Require Import Framing FramingProofs Model Spec Layout LayoutProofs Entry Gen GenProofs Big BigProofs Proofs Witness.
 Import ListNotations.
 Open Scope Z_scope.
 Open Scope list_scope.
@@ -231,6 +231,18 @@ Theorem C01_exec_read_is_model :
     sfile_read pyval v_str v_int np_dtype pyeval f = Ok (dt, rows, h) ->
     exists size, sfile_read_c f dt = Ok (size, rows).
 Proof. exact sfile_read_c_is_model. Qed.
+
+(* The readers evaluated on the many-rows cases (Big.v: the length of the file is asked once, not
+   before every row) are the model's readers. *)
+Theorem C01_fast_readers_are_model :
+  (forall rs n f, take_rows_fast rs n f = take_rows rs n f)
+  /\ (forall f offset rs nrows, recfile_read_fast f offset rs nrows = recfile_read f offset rs nrows)
+  /\ (forall f dt, sfile_read_c_fast f dt = sfile_read_c f dt)
+  /\ (forall f dt nrows, recfile_read0_fast f dt nrows = recfile_read0 f dt nrows).
+Proof.
+  exact (conj (fun rs n f => eq_sym (take_rows_fast_eq rs n f))
+          (conj recfile_read_fast_eq (conj sfile_read_c_fast_eq recfile_read0_fast_eq))).
+Qed.
 
 (* Checker soundness: what the correspondence run evaluates on the implementation's outputs. *)
 Theorem C01_checkers_sound :
